@@ -528,6 +528,9 @@ class J1939_22:
             return
 
         src_address = mid.source_address
+        if src_address == ParameterGroupNumber.Address.GLOBAL:
+            # the global address is no valid source; such a frame must not be taken for the answer of a peer to one of our broadcast sessions
+            return
         control_byte  = data[0] & 0xF
         session_num   = (data[0] >> 4) & 0xF
         message_size  = (data[1]  & 0xFF) | ((data[2]  & 0xFF) << 8) | ((data[3] & 0xFF)  << 16)
